@@ -2,12 +2,15 @@
 //
 // It is deliberately tiny and works on a whitelist: anything it does not recognise is an error
 // (exit 2), never a guess.  Output:
-//   <out>/CRC.lean     the 256-entry table, the loop body of updateCRC32 and the init constant
-//   <out>/Consts.lean  every integer package constant
-//   <out>/Exprs.lean   pure predicate / arithmetic functions translated to Lean (Nat / Bool)
-//   <out>/Facts.lean   structural facts: package-level vars, NextBytesNoCopy result uses,
-//                      order of tests in packetAccumulator.add, writers returning the batch latch
-//   <out>/facts.json   the same facts for the evidence files
+//
+//	<out>/CRC.lean     the 256-entry table, the loop body of updateCRC32 and the init constant
+//	<out>/Consts.lean  every integer package constant
+//	<out>/Exprs.lean   pure predicate / arithmetic functions translated to Lean (Nat / Bool)
+//	<out>/Lengths.lean the length calculators and other straight-line integer functions, translated
+//	                   statement by statement over the model's structures (lengths.go)
+//	<out>/Facts.lean   structural facts: package-level vars, NextBytesNoCopy result uses,
+//	                   order of tests in packetAccumulator.add, writers returning the batch latch
+//	<out>/facts.json   the same facts for the evidence files
 package main
 
 import (
@@ -31,6 +34,9 @@ type pkgInfo struct {
 	consts map[string]ast.Expr
 	vars   []string
 	varVal map[string]ast.Expr
+	// for lengths.go: type declarations and the declared types of typed constants
+	types      map[string]ast.Expr
+	constTypes map[string]ast.Expr
 }
 
 func die(format string, a ...interface{}) {
@@ -39,7 +45,8 @@ func die(format string, a ...interface{}) {
 }
 
 func load(dir string) *pkgInfo {
-	p := &pkgInfo{files: map[string]*ast.File{}, funcs: map[string]*ast.FuncDecl{}, consts: map[string]ast.Expr{}, varVal: map[string]ast.Expr{}}
+	p := &pkgInfo{files: map[string]*ast.File{}, funcs: map[string]*ast.FuncDecl{}, consts: map[string]ast.Expr{}, varVal: map[string]ast.Expr{},
+		types: map[string]ast.Expr{}, constTypes: map[string]ast.Expr{}}
 	names, _ := filepath.Glob(filepath.Join(dir, "*.go"))
 	sort.Strings(names)
 	for _, n := range names {
@@ -78,6 +85,10 @@ func load(dir string) *pkgInfo {
 				p.funcs[key] = d
 			case *ast.GenDecl:
 				for _, s := range d.Specs {
+					if ts, ok := s.(*ast.TypeSpec); ok {
+						p.types[ts.Name.Name] = ts.Type
+						continue
+					}
 					vs, ok := s.(*ast.ValueSpec)
 					if !ok {
 						continue
@@ -86,6 +97,9 @@ func load(dir string) *pkgInfo {
 						if d.Tok == token.CONST {
 							if i < len(vs.Values) {
 								p.consts[nm.Name] = vs.Values[i]
+								if vs.Type != nil {
+									p.constTypes[nm.Name] = vs.Type
+								}
 							}
 						} else if d.Tok == token.VAR {
 							p.vars = append(p.vars, nm.Name)
@@ -482,6 +496,7 @@ func main() {
 	emitCRC(p, out)
 	consts := emitConsts(p, out)
 	facts := emitExprsAndFacts(p, out)
+	emitLengths(p, out)
 	facts["consts"] = consts
 	js, _ := json.MarshalIndent(facts, "", " ")
 	write(filepath.Join(out, "facts.json"), string(js)+"\n")
